@@ -1,4 +1,6 @@
-(* Proofs for C03 (model: Ops.v). *)
+(* Proofs for C03 (model: Ops.v): the evaluator of expression trees is the cell-wise semantics,
+   for every field of values K (ring laws only), every un/bin, every tree depth. *)
+From Coq Require Import Ring.
 From DF Require Import Prelude FieldK Region Mesh Ops ListLemmas.
 
 Fixpoint strip_pos {K : FOps} (e : expr K) : expr K :=
@@ -10,3 +12,445 @@ Proof.
   - now inversion H.
   - destruct o; try discriminate. now apply IH.
 Qed.
+
+(* ---------- list helpers ---------- *)
+Lemma nth_map_lt {A B} (h : A -> B) l c d d' : (c < length l)%nat -> nth c (map h l) d = h (nth c l d').
+Proof.
+  intro H. rewrite (nth_indep (map h l) d (h d')) by (now rewrite map_length). apply map_nth.
+Qed.
+
+Lemma nth_repeat_lt {A} (x : A) N c d : (c < N)%nat -> nth c (repeat x N) d = x.
+Proof.
+  revert c; induction N as [|N IH]; intros [|c] H; simpl; try lia; auto. apply IH; lia.
+Qed.
+
+Lemma map2_flip {A B C} (g : A -> B -> C) u v : map2 g u v = map2 (fun b a => g a b) v u.
+Proof. revert v; induction u as [|x u IH]; intros [|y v]; simpl; auto. now rewrite IH. Qed.
+
+Lemma map2_ext {A B C} (g h : A -> B -> C) u v : (forall a b, g a b = h a b) -> map2 g u v = map2 h u v.
+Proof. intro E; revert v; induction u as [|x u IH]; intros [|y v]; simpl; auto. now rewrite E, IH. Qed.
+
+Lemma map2_map_l {A A' B C} (g : A' -> B -> C) (h : A -> A') u v :
+  map2 g (map h u) v = map2 (fun a b => g (h a) b) u v.
+Proof. revert v; induction u as [|x u IH]; intros [|y v]; simpl; auto. now rewrite IH. Qed.
+
+Section Proofs.
+Variable K : FOps.
+Variable un : nat -> K -> K.
+Variable bin : nat -> K -> K -> K.
+Hypothesis RL : ring_theory (f0 K) (f1 K) (@fadd K) (@fmul K) (@fsub K) (@fopp K) eq.
+Add Ring Kring_c03 : RL.
+
+Notation vec := (list K).
+Notation field := (field K).
+Notation bvec := (bvec K).
+
+(* ---------- broadcasting ---------- *)
+Lemma bvec_flip (g : K -> K -> K) u v : bvec g u v = bvec (fun b a => g a b) v u.
+Proof.
+  unfold Ops.bvec. rewrite (Nat.eqb_sym (length v) (length u)).
+  destruct (length u =? length v)%nat eqn:E.
+  - apply map2_flip.
+  - destruct (length u =? 1)%nat eqn:E1, (length v =? 1)%nat eqn:E2; auto.
+    apply Nat.eqb_eq in E1, E2. rewrite E1, E2 in E. discriminate.
+Qed.
+
+Lemma bvec_ext (g h : K -> K -> K) u v : (forall a b, g a b = h a b) -> bvec g u v = bvec h u v.
+Proof.
+  intro E. unfold Ops.bvec.
+  destruct (length u =? length v)%nat; [now apply map2_ext|].
+  destruct (length u =? 1)%nat; [apply map_ext; intro; apply E|].
+  destruct (length v =? 1)%nat; [apply map_ext; intro; apply E|auto].
+Qed.
+
+Lemma bvec_comm (g : K -> K -> K) u v : (forall a b, g a b = g b a) -> bvec g u v = bvec g v u.
+Proof. intro C. rewrite bvec_flip. apply bvec_ext. intros; apply C. Qed.
+
+(* -self + other  is  other - self *)
+Lemma bvec_rsub u v : bvec fadd (map fopp u) v = bvec fsub v u.
+Proof.
+  rewrite (bvec_flip fsub). unfold Ops.bvec. rewrite map_length.
+  destruct (length u =? length v)%nat.
+  - rewrite map2_map_l. apply map2_ext. intros; ring.
+  - destruct (length u =? 1)%nat eqn:E1.
+    + destruct u as [|x [|y u]]; try discriminate. simpl. apply map_ext. intros; ring.
+    + destruct (length v =? 1)%nat; auto. rewrite map_map. apply map_ext. intros; ring.
+Qed.
+
+Lemma cross3_anti u v : map fopp (cross3 K u v) = cross3 K v u.
+Proof.
+  destruct u as [|a1 [|a2 [|a3 [|]]]]; destruct v as [|b1 [|b2 [|b3 [|]]]]; simpl; auto.
+  repeat f_equal; ring.
+Qed.
+
+Lemma dotv_comm u v : dotv K u v = dotv K v u.
+Proof. unfold dotv. f_equal. apply bvec_comm. intros; ring. Qed.
+
+(* ---------- the Field constructor keeps what it is given ---------- *)
+Definition res_is (r : field) (m : mesh) (arr : list vec) (va : list bool) : Prop :=
+  fmesh r = m /\ farr r = arr /\ fvalid r = va.
+
+Lemma mk_field_ok m nv arr vd va vm r : mk_field K m nv arr vd va vm = OK r -> res_is r m arr va.
+Proof.
+  unfold mk_field. destruct (nv =? 0)%nat; [discriminate|].
+  destruct (set_vdims nv vd); simpl; [|discriminate].
+  destruct (set_vmap m nv a vm); simpl; [|discriminate].
+  intro H; inversion H; subst; unfold res_is; simpl; auto.
+Qed.
+
+Lemma not_impl_ok {A} (x : res A) r : not_impl x = OK r -> x = OK r.
+Proof. destruct x; simpl; intro H; [auto|discriminate]. Qed.
+
+Ltac inv H :=
+  cbv zeta in H; try discriminate H;
+  repeat match type of H with
+  | bind ?x _ = OK _ => let E := fresh "E" in destruct x eqn:E; simpl bind in H; [|discriminate H]
+  | (if ?b then _ else _) = OK _ => let E := fresh "E" in destruct b eqn:E; cbv iota in H; try discriminate H
+  | (match ?x with _ => _ end) = OK _ => let E := fresh "E" in destruct x eqn:E; cbv iota in H; try discriminate H
+  | not_impl _ = OK _ => apply not_impl_ok in H
+  end.
+
+Ltac inv1 H :=
+  match type of H with
+  | bind ?x _ = OK _ => let E := fresh "E" in destruct x eqn:E; [cbv beta iota delta [bind] in H|discriminate H]
+  end.
+
+Lemma same_shape_ok g f r : same_shape K g f = OK r -> res_is r (fmesh f) (map (map g) (farr f)) (fvalid f).
+Proof. apply mk_field_ok. Qed.
+
+Definition opvalid (f : field) (vb : value K) : list bool :=
+  match vb with VF o => map2 andb (fvalid f) (fvalid o) | VC _ => fvalid f end.
+
+Lemma apply_op_ok g f vb r : apply_op K g f vb = OK r ->
+  res_is r (fmesh f) (map2 (bvec g) (farr f) (operand_cells K (length (farr f)) vb)) (opvalid f vb).
+Proof.
+  unfold apply_op. destruct vb as [o|c]; intro H; inv H; apply mk_field_ok in H; exact H.
+Qed.
+
+Lemma dot_op_ok f vb r : dot_op K f vb = OK r ->
+  res_is r (fmesh f) (map2 (fun u v => [dotv K u v]) (farr f) (operand_cells K (length (farr f)) vb)) (opvalid f vb).
+Proof.
+  unfold dot_op. destruct vb as [o|c]; intro H.
+  - inv H; apply mk_field_ok in H; exact H.
+  - destruct c; inv H; apply mk_field_ok in H; exact H.
+Qed.
+
+Lemma cross_op_ok f vb r : cross_op K f vb = OK r ->
+  res_is r (fmesh f) (map2 (cross3 K) (farr f) (operand_cells K (length (farr f)) vb)) (opvalid f vb).
+Proof.
+  unfold cross_op. destruct vb as [o|c]; intro H.
+  - inv H; apply mk_field_ok in H; exact H.
+  - destruct c; inv H; apply mk_field_ok in H; exact H.
+Qed.
+
+Lemma angle_op_ok f vb r : angle_op K un f vb = OK r ->
+  res_is r (fmesh f) (map2 (fun u v => [angle_cell K un u v]) (farr f) (operand_cells K (length (farr f)) vb))
+         (opvalid f vb).
+Proof.
+  unfold angle_op. destruct vb as [o|c]; intro H.
+  - inv H; apply mk_field_ok in H; exact H.
+  - destruct c; inv H; apply mk_field_ok in H; exact H.
+Qed.
+
+Lemma stack_ff_ok f o r : stack_ff K f o = OK r ->
+  res_is r (fmesh f) (map2 (@app K) (farr f) (farr o)) (map2 andb (fvalid f) (fvalid o)).
+Proof. unfold stack_ff. intro H. inv H; apply mk_field_ok in H; exact H. Qed.
+
+(* the field built from a constant has the constant in every cell, is valid everywhere, lives on f's mesh *)
+Lemma const_field_ok f nv c cf : const_field K f nv c = OK cf ->
+  res_is cf (fmesh f)
+         (match c with CArr _ cells => cells | _ => repeat (cden K c 0) (length (farr f)) end)
+         (repeat true (length (farr f))).
+Proof.
+  unfold const_field. destruct c; intro H; inv H; apply mk_field_ok in H; exact H.
+Qed.
+
+Lemma stack_const_ok f c cf : stack_const K f c = OK cf ->
+  res_is cf (fmesh f)
+         (match c with CArr _ cells => cells | _ => repeat (cden K c 0) (length (farr f)) end)
+         (repeat true (length (farr f))).
+Proof. unfold stack_const. destruct c; apply const_field_ok. Qed.
+
+Lemma ufunc2_ok g self a b r : ufunc2 K g self a b = OK r ->
+  res_is r (fmesh self)
+         (map2 (bvec g) (operand_cells K (length (farr self)) a) (operand_cells K (length (farr self)) b))
+         (map2 andb (operand_valid K (length (farr self)) a) (operand_valid K (length (farr self)) b)).
+Proof. unfold ufunc2. intro H. inv H. apply mk_field_ok in H. exact H. Qed.
+
+(* ---------- well-formed inputs ---------- *)
+Fixpoint consts_ok (N : nat) (e : expr K) : Prop :=
+  match e with
+  | Leaf _ => True
+  | Const (CArr _ cells) => length cells = N
+  | Const _ => True
+  | Un _ a => consts_ok N a
+  | Bin _ a b => consts_ok N a /\ consts_ok N b
+  end.
+
+Definition wf_leaf (N : nat) (m : mesh) (g : field) : Prop :=
+  length (farr g) = N /\ length (fvalid g) = N /\ fmesh g = m.
+
+Section Env.
+Variable rho : list field.
+Variable N : nat.
+Variable m : mesh.
+Hypothesis Hrho : Forall (wf_leaf N m) rho.
+
+Notation den := (den K un bin rho).
+Notation den_valid := (den_valid K rho).
+
+(* what the induction carries for a value *)
+Definition good (e : expr K) (v : value K) : Prop :=
+  match v with
+  | VF f => wf_leaf N m f /\
+            forall c, (c < N)%nat -> nth c (farr f) [] = den e c /\ nth c (fvalid f) true = den_valid e c
+  | VC k => e = Const k
+  end.
+
+(* an evaluated operand, seen cell by cell *)
+Lemma operand_good e v : consts_ok N e -> good e v ->
+  length (operand_cells K N v) = N /\ length (operand_valid K N v) = N /\
+  forall c, (c < N)%nat -> nth c (operand_cells K N v) [] = den e c /\
+                           nth c (operand_valid K N v) true = den_valid e c.
+Proof.
+  intros HC G. destruct v as [f|k]; simpl in *.
+  - destruct G as [[L1 [L2 _]] G]. auto.
+  - subst e. simpl. rewrite map_length, iota_length, repeat_length. repeat split; auto.
+    + now apply nth_map_iota.
+    + now apply nth_repeat_lt.
+Qed.
+
+Lemma opvalid_nth f e v c : wf_leaf N m f -> consts_ok N e -> good e v -> (c < N)%nat ->
+  nth c (opvalid f v) true = nth c (fvalid f) true && den_valid e c.
+Proof.
+  intros [L1 [L2 _]] HC G Hc. destruct v as [o|k]; simpl in *.
+  - destruct G as [[M1 [M2 _]] G]. rewrite (nth_map2 andb _ _ _ true true true) by lia.
+    now rewrite (proj2 (G c Hc)).
+  - subst e. simpl. now rewrite andb_true_r.
+Qed.
+
+Lemma opvalid_length f e v : wf_leaf N m f -> consts_ok N e -> good e v -> length (opvalid f v) = N.
+Proof.
+  intros [L1 [L2 _]] HC G. destruct v as [o|k]; simpl in *; auto.
+  destruct G as [[M1 [M2 _]] _]. rewrite map2_length. lia.
+Qed.
+
+(* a result built cell by cell from self and the other operand *)
+Lemma lift2_good (h : vec -> vec -> vec) ea eb f vb r (o : binop) :
+  (forall u v, sem_bin K un bin o u v = h u v) ->
+  good ea (VF f) -> consts_ok N eb -> good eb vb ->
+  res_is r (fmesh f) (map2 h (farr f) (operand_cells K (length (farr f)) vb)) (opvalid f vb) ->
+  good (Bin o ea eb) (VF r).
+Proof.
+  intros Hs [Wf Gf] HC Gb [Rm [Ra Rv]].
+  assert (Wf' := Wf). destruct Wf' as [L1 [L2 L3]]. rewrite L1 in Ra.
+  destruct (operand_good _ _ HC Gb) as [O1 [O2 O3]].
+  split.
+  - split; [|split].
+    + rewrite Ra, map2_length. lia.
+    + rewrite Rv. eapply opvalid_length; eauto.
+    + congruence.
+  - intros c Hc. split.
+    + rewrite Ra, (nth_map2 h _ _ _ [] [] []) by lia. simpl. rewrite Hs.
+      now rewrite (proj1 (Gf c Hc)), (proj1 (O3 c Hc)).
+    + rewrite Rv, (opvalid_nth f eb vb c Wf HC Gb Hc). simpl. now rewrite (proj2 (Gf c Hc)).
+Qed.
+
+(* same, for constant (op) field: the array is h applied to (cell of the field, constant) and the
+   semantics wants (constant, cell of the field) *)
+Lemma rlift2_good (h : vec -> vec -> vec) k eb g r (o : binop) :
+  (forall u v, h v u = sem_bin K un bin o u v) ->
+  consts_ok N (Const k) -> good eb (VF g) ->
+  res_is r (fmesh g) (map2 h (farr g) (operand_cells K (length (farr g)) (VC k))) (fvalid g) ->
+  good (Bin o (Const k) eb) (VF r).
+Proof.
+  intros Hs HC [Wg Gg] [Rm [Ra Rv]].
+  assert (Wg' := Wg). destruct Wg' as [L1 [L2 L3]]. rewrite L1 in Ra.
+  destruct (operand_good (Const k) (VC k) HC eq_refl) as [O1 [O2 O3]].
+  split.
+  - split; [|split]; try congruence. rewrite Ra, map2_length. lia.
+  - intros c Hc. split.
+    + rewrite Ra, (nth_map2 h _ _ _ [] [] []) by lia. simpl. rewrite <- Hs.
+      rewrite (proj1 (Gg c Hc)). f_equal. exact (proj1 (O3 c Hc)).
+    + rewrite Rv. simpl. exact (proj2 (Gg c Hc)).
+Qed.
+
+Lemma const_cells_nth k c cells0 :
+  consts_ok N (Const k) -> (c < N)%nat ->
+  cells0 = match k with CArr _ cells => cells | _ => repeat (cden K k 0) N end ->
+  length cells0 = N /\ nth c cells0 [] = cden K k c.
+Proof.
+  intros HC Hc ->. destruct k; simpl in *; rewrite ?repeat_length; split; auto; now apply nth_repeat_lt.
+Qed.
+
+Lemma eval_un_good o ea f r : good ea (VF f) -> eval_un K un o f = OK r -> good (Un o ea) (VF r).
+Proof.
+  intros [Wf Gf] H. assert (Wf' := Wf). destruct Wf' as [L1 [L2 L3]].
+  assert (SS : forall g, (forall v, sem_un K un o v = map g v) ->
+                         res_is r (fmesh f) (map (map g) (farr f)) (fvalid f) -> good (Un o ea) (VF r)).
+  { intros g Hs [Rm [Ra Rv]]. split.
+    - split; [|split]; try congruence. now rewrite Ra, map_length.
+    - intros c Hc. split.
+      + rewrite Ra, (nth_map_lt (map g) (farr f) c [] []) by lia. simpl. rewrite Hs.
+        now rewrite (proj1 (Gf c Hc)).
+      + rewrite Rv. simpl. exact (proj2 (Gf c Hc)). }
+  destruct o; simpl in H.
+  - apply (SS fopp); [reflexivity | apply same_shape_ok; exact H].
+  - inversion H; subst r. split; auto.
+  - apply (SS (un U_ABS)); [reflexivity | apply same_shape_ok; exact H].
+  - apply (SS (un U_REAL)); [reflexivity | apply same_shape_ok; exact H].
+  - apply (SS (un U_IMAG)); [reflexivity | apply same_shape_ok; exact H].
+  - apply (SS (un U_CONJ)); [reflexivity | apply same_shape_ok; exact H].
+  - apply (SS (un U_ABS)); [reflexivity | apply same_shape_ok; exact H].
+  - apply (SS (un U_PHASE)); [reflexivity | apply same_shape_ok; exact H].
+  - unfold comp_op in H. inv H. apply mk_field_ok in H. destruct H as [Rm [Ra Rv]]. split.
+    + split; [|split]; try congruence. now rewrite Ra, map_length.
+    + intros c Hc. split.
+      * rewrite Ra, (nth_map_lt (fun v => [nth j v (f0 K)]) (farr f) c [] []) by lia. simpl.
+        now rewrite (proj1 (Gf c Hc)).
+      * rewrite Rv. simpl. exact (proj2 (Gf c Hc)).
+  - unfold ufunc1 in H. apply not_impl_ok in H. apply mk_field_ok in H.
+    apply (SS (un id)); [reflexivity | exact H].
+Qed.
+
+Lemma eval_bin_good o ea eb f vb r :
+  good ea (VF f) -> consts_ok N eb -> good eb vb -> eval_bin K un bin o f vb = OK r ->
+  good (Bin o ea eb) (VF r).
+Proof.
+  intros Ga HC Gb H. destruct o; simpl in H.
+  - exact (lift2_good _ ea eb f vb r (Alg o) (fun u v => eq_refl) Ga HC Gb (apply_op_ok _ _ _ _ H)).
+  - exact (lift2_good (fun u v => [dotv K u v]) ea eb f vb r Dot (fun u v => eq_refl) Ga HC Gb (dot_op_ok _ _ _ H)).
+  - exact (lift2_good _ ea eb f vb r Cross (fun u v => eq_refl) Ga HC Gb (cross_op_ok _ _ _ H)).
+  - exact (lift2_good (fun u v => [angle_cell K un u v]) ea eb f vb r Angle (fun u v => eq_refl) Ga HC Gb
+                      (angle_op_ok _ _ _ H)).
+  - (* stacking *)
+    destruct vb as [o|k]; simpl in H.
+    + exact (lift2_good (@app K) ea eb f (VF o) r Stack (fun u v => eq_refl) Ga HC Gb (stack_ff_ok _ _ _ H)).
+    + inv H. simpl in Gb. subst eb. apply stack_const_ok in E. apply stack_ff_ok in H.
+      destruct Ga as [Wf Gf]. assert (Wf' := Wf). destruct Wf' as [L1 [L2 L3]].
+      destruct E as [Cm [Ca Cv]]. destruct H as [Rm [Ra Rv]]. rewrite L1 in *.
+      split.
+      * split; [|split]; try congruence.
+        -- rewrite Ra, map2_length, Ca.
+           destruct (const_cells_nth k 0 _ HC (Nat.lt_0_succ 0) eq_refl) as [LL _] || idtac.
+           destruct k; simpl in *; rewrite ?repeat_length; lia.
+        -- rewrite Rv, map2_length, Cv, repeat_length. lia.
+      * intros c Hc.
+        destruct (const_cells_nth k c (farr a) HC Hc Ca) as [LL NN].
+        split.
+        -- rewrite Ra, (nth_map2 (@app K) _ _ _ [] [] []) by lia. simpl.
+           now rewrite (proj1 (Gf c Hc)), NN.
+        -- rewrite Rv, (nth_map2 andb _ _ _ true true true) by (rewrite ?Cv, ?repeat_length; lia).
+           rewrite Cv, nth_repeat_lt by lia. simpl. rewrite !andb_true_r. exact (proj2 (Gf c Hc)).
+  - (* ufunc spelling, self first *)
+    apply ufunc2_ok in H. destruct Ga as [Wf Gf]. assert (Wf' := Wf). destruct Wf' as [L1 [L2 L3]].
+    destruct H as [Rm [Ra Rv]]. rewrite L1 in *. simpl in Ra, Rv.
+    destruct (operand_good _ _ HC Gb) as [O1 [O2 O3]].
+    split.
+    + split; [|split]; try congruence.
+      * rewrite Ra, map2_length. lia.
+      * rewrite Rv, map2_length. lia.
+    + intros c0 Hc. split.
+      * rewrite Ra, (nth_map2 (bvec (cf2 K bin c)) _ _ _ [] [] []) by lia. simpl.
+        now rewrite (proj1 (Gf c0 Hc)), (proj1 (O3 c0 Hc)).
+      * rewrite Rv, (nth_map2 andb _ _ _ true true true) by lia. simpl.
+        now rewrite (proj2 (Gf c0 Hc)), (proj2 (O3 c0 Hc)).
+Qed.
+
+Lemma eval_rbin_good o k eb g r :
+  consts_ok N (Const k) -> good eb (VF g) -> eval_rbin K bin o k g = OK r ->
+  good (Bin o (Const k) eb) (VF r).
+Proof.
+  intros HC Gb H. destruct o; unfold eval_rbin in H.
+  - (* arithmetic *)
+    destruct (const_np K k) eqn:NP.
+    + apply ufunc2_ok in H. destruct Gb as [Wg Gg]. assert (Wg' := Wg). destruct Wg' as [L1 [L2 L3]].
+      destruct H as [Rm [Ra Rv]]. rewrite L1 in *. simpl in Ra, Rv.
+      destruct (operand_good (Const k) (VC k) HC eq_refl) as [O1 [O2 O3]]. simpl in O1, O2, O3.
+      split.
+      * split; [|split]; try congruence.
+        -- rewrite Ra, map2_length. lia.
+        -- rewrite Rv, map2_length. lia.
+      * intros c0 Hc. split.
+        -- rewrite Ra, (nth_map2 (bvec (alg K bin o)) _ _ _ [] [] []) by lia. simpl.
+           now rewrite (proj1 (Gg c0 Hc)), (proj1 (O3 c0 Hc)).
+        -- rewrite Rv, (nth_map2 andb _ _ _ true true true) by lia.
+           rewrite (proj2 (O3 c0 Hc)). simpl. exact (proj2 (Gg c0 Hc)).
+    + destruct o.
+      * apply apply_op_ok in H. eapply rlift2_good; eauto. intros u v. simpl. apply bvec_comm. intros; ring.
+      * (* -self + other *)
+        inv1 H. apply same_shape_ok in E. apply apply_op_ok in H.
+        destruct E as [Nm [Na Nv]]. destruct H as [Rm [Ra Rv]]. simpl in Rv.
+        eapply (rlift2_good (fun u v => bvec fadd (map fopp u) v)); eauto.
+        -- intros u v. simpl. apply bvec_rsub.
+        -- unfold res_is. rewrite Rm, Nm, Ra, Na, Rv, Nv, map_length. split; [|split]; auto.
+           apply map2_map_l.
+      * apply apply_op_ok in H. eapply rlift2_good; eauto. intros u v. simpl. apply bvec_comm. intros; ring.
+      * apply apply_op_ok in H. eapply rlift2_good; eauto. intros u v. simpl. symmetry. apply bvec_flip.
+      * discriminate.
+  - destruct (const_np K k); [discriminate|]. apply dot_op_ok in H.
+    eapply (rlift2_good (fun u v => [dotv K u v])); eauto. intros u v. simpl. now rewrite dotv_comm.
+  - destruct (const_np K k); [discriminate|]. inv1 H. apply cross_op_ok in E. apply same_shape_ok in H.
+    destruct E as [Cm [Ca Cv]]. destruct H as [Rm [Ra Rv]]. simpl in Cv.
+    eapply (rlift2_good (fun u v => map fopp (cross3 K u v))); eauto.
+    + intros u v. simpl. apply cross3_anti.
+    + unfold res_is. rewrite Rm, Cm, Ra, Ca, Rv, Cv. split; [|split]; auto.
+      generalize (operand_cells K (length (farr g)) (VC k)). generalize (farr g).
+      induction l as [|x l IH]; intros [|y l']; simpl; auto. now rewrite IH.
+  - discriminate.
+  - (* constant << field *)
+    destruct (const_np K k); [discriminate|]. inv1 H. apply stack_const_ok in E. apply stack_ff_ok in H.
+    destruct Gb as [Wg Gg]. assert (Wg' := Wg). destruct Wg' as [L1 [L2 L3]].
+    destruct E as [Cm [Ca Cv]]. destruct H as [Rm [Ra Rv]]. rewrite L1 in *.
+    split.
+    + split; [|split]; try congruence.
+      * rewrite Ra, map2_length, Ca. destruct k; simpl in *; rewrite ?repeat_length; lia.
+      * rewrite Rv, map2_length, Cv, repeat_length. lia.
+    + intros c Hc.
+      destruct (const_cells_nth k c (farr a) HC Hc Ca) as [LL NN].
+      split.
+      * rewrite Ra, (nth_map2 (@app K) _ _ _ [] [] []) by lia. simpl.
+        now rewrite (proj1 (Gg c Hc)), NN.
+      * rewrite Rv, (nth_map2 andb _ _ _ true true true) by (rewrite ?Cv, ?repeat_length; lia).
+        rewrite Cv, nth_repeat_lt by lia. simpl. exact (proj2 (Gg c Hc)).
+  - (* ufunc spelling, constant first *)
+    apply ufunc2_ok in H. destruct Gb as [Wg Gg]. assert (Wg' := Wg). destruct Wg' as [L1 [L2 L3]].
+    destruct H as [Rm [Ra Rv]]. rewrite L1 in *. simpl in Ra, Rv.
+    destruct (operand_good (Const k) (VC k) HC eq_refl) as [O1 [O2 O3]]. simpl in O1, O2, O3.
+    split.
+    + split; [|split]; try congruence.
+      * rewrite Ra, map2_length. lia.
+      * rewrite Rv, map2_length. lia.
+    + intros c0 Hc. split.
+      * rewrite Ra, (nth_map2 (bvec (cf2 K bin c)) _ _ _ [] [] []) by lia. simpl.
+        now rewrite (proj1 (Gg c0 Hc)), (proj1 (O3 c0 Hc)).
+      * rewrite Rv, (nth_map2 andb _ _ _ true true true) by lia.
+        rewrite (proj2 (O3 c0 Hc)). simpl. exact (proj2 (Gg c0 Hc)).
+Qed.
+
+Theorem eval_good e : consts_ok N e -> forall v, eval K un bin rho e = OK v -> good e v.
+Proof.
+  induction e as [i|k|o a IH|o a IHa b IHb]; simpl; intros HC v H.
+  - destruct (nth_error rho i) as [f|] eqn:E; [|discriminate]. inversion H; subst v. simpl.
+    assert (In f rho) by (eapply nth_error_In; eauto).
+    rewrite Forall_forall in Hrho. split; [auto|].
+    intros c Hc. now rewrite (nth_error_nth rho i (dummy K) E).
+  - inversion H; subst v. reflexivity.
+  - destruct (eval K un bin rho a) as [va|] eqn:Ea; simpl in H; [|discriminate].
+    destruct va as [f|k]; [|discriminate].
+    destruct (eval_un K un o f) as [r|] eqn:Er; simpl in H; [|discriminate].
+    inversion H; subst v. eapply eval_un_good; eauto.
+  - destruct HC as [HCa HCb].
+    destruct (eval K un bin rho a) as [va|] eqn:Ea; simpl in H; [|discriminate].
+    destruct (eval K un bin rho b) as [vb|] eqn:Eb; simpl in H; [|discriminate].
+    specialize (IHa HCa _ eq_refl). specialize (IHb HCb _ eq_refl).
+    destruct va as [f|k].
+    + destruct (eval_bin K un bin o f vb) as [r|] eqn:Er; simpl in H; [|discriminate].
+      inversion H; subst v. eapply eval_bin_good; eauto.
+    + destruct vb as [g|k']; [|discriminate].
+      destruct (eval_rbin K bin o k g) as [r|] eqn:Er; simpl in H; [|discriminate].
+      inversion H; subst v. simpl in IHa. subst a. eapply eval_rbin_good; eauto.
+Qed.
+
+End Env.
+End Proofs.
